@@ -15,6 +15,9 @@ fn parse_handle(dbg: String) -> u32 {
 pub struct Pptt;
 pub const P_PROC: u8 = 0;
 pub const P_CACHE: u8 = 1;
+/// a cache node obtained through the derived `Default` (28 zero bytes: not self-describing, so C03 does not judge
+/// histories containing it; C05 still requires every handle to be the offset at which its node begins)
+pub const P_CACHE_DEFAULT: u8 = 2;
 pub fn proc_shape(nres: u16, parent_sel: u16, res_sel: u16, opts: u16) -> u16 {
     nres | (parent_sel << 2) | (res_sel << 5) | (opts << 8)
 }
@@ -94,15 +97,18 @@ impl Table for Pptt {
     fn name(&self) -> &'static str {
         "pptt"
     }
+    fn unjudged(&self, _ops: &[Op]) -> Vec<usize> {
+        vec![8] // table Revision: pinned to the baseline, not judged
+    }
     fn kinds(&self) -> &'static [&'static str] {
-        &["add_processor", "add_cache"]
+        &["add_processor", "add_cache", "add_cache(CacheNode::default())"]
     }
     fn enable_all(&self) -> Vec<Op> {
         vec![Op::new(P_CACHE, cache_shape(0xff, 0), 2), Op::new(P_PROC, proc_shape(0, 0, 0, 0x1f), 2)]
     }
     fn alphabet(&self, _c: &Ctor, hist: &[Op], level: u8) -> Vec<Op> {
         let np = hist.iter().filter(|o| o.k == P_PROC).count();
-        let nc = hist.iter().filter(|o| o.k == P_CACHE).count();
+        let nc = hist.iter().filter(|o| o.k != P_PROC).count();
         let mut v = vec![];
         if level == 0 {
             v.push(Op::new(P_PROC, proc_shape(if nc > 0 { 1 } else { 0 }, if np > 0 { 1 + 7 } else { 0 }, 7, 0x1f), 2));
@@ -145,7 +151,16 @@ impl Table for Pptt {
             let f = fl[n % fl.len()];
             v.push(Op::new(P_CACHE, cache_shape(if n % 2 == 0 { 0xff } else { 0 }, *ns), f));
         }
+        if hist.iter().filter(|o| o.k == P_CACHE_DEFAULT).count() < 1 {
+            v.push(Op::new(P_CACHE_DEFAULT, 0, 0));
+        }
         v
+    }
+    fn unwalkable(&self, ops: &[Op]) -> bool {
+        ops.iter().any(|o| o.k == P_CACHE_DEFAULT)
+    }
+    fn summary(&self, img: &[u8], ents: &[Ent]) -> Vec<u64> {
+        ents.iter().filter(|e| e.ty == 0 && e.len >= 20).map(|e| rd32(img, e.off + 16) as u64).collect()
     }
     fn run(&self, c: &Ctor, ops: &[Op], obs: &mut dyn FnMut(usize, &dyn Aml, &[u32])) {
         let mut t = pptt::PPTT::new(c.oem_id(), c.oem_table_id(), c.oem_rev());
@@ -167,6 +182,10 @@ impl Table for Pptt {
                 let h = t.add_processor(p);
                 seen.push(parse_handle(format!("{:?}", h)));
                 ph.push(h);
+            } else if op.k == P_CACHE_DEFAULT {
+                let h = t.add_cache(pptt::CacheNode::default());
+                seen.push(parse_handle(format!("{:?}", h)));
+                ch.push(h);
             } else {
                 let (mask, nsel) = (s & 0xff, (s >> 8) & 7);
                 let next = if nsel == 0 { None } else { Some(&ch[sel(nsel - 1, ch.len())]) };
@@ -203,6 +222,9 @@ impl Table for Pptt {
                     w.u32(out.ents[tgt].off as u32);
                 }
                 ph.push(ei);
+            } else if op.k == P_CACHE_DEFAULT {
+                w.z(28);
+                ch.push(ei);
             } else {
                 let (mask, nsel) = (s & 0xff, (s >> 8) & 7);
                 let next = if nsel == 0 { 0 } else { out.ents[ch[sel(nsel - 1, ch.len())]].off as u32 };
@@ -212,7 +234,7 @@ impl Table for Pptt {
                 ref_cache(&mut w, f, mask, next);
                 ch.push(ei);
             }
-            out.ents.push(Ent { off: o, ty: op.k as u32, len: w.len() - o });
+            out.ents.push(Ent { off: o, ty: if op.k == P_PROC { 0 } else { 1 }, len: w.len() - o });
             out.handles.push(o as u32);
             out.handle_ents.push(ei);
         }
@@ -247,6 +269,8 @@ impl Table for Pptt {
         use FT::*;
         if k == P_PROC {
             vec![U(32)]
+        } else if k == P_CACHE_DEFAULT {
+            vec![]
         } else {
             vec![U(32), U(32), U(8), E(3), E(3), E(2), U(16), U(32)]
         }
@@ -254,6 +278,8 @@ impl Table for Pptt {
     fn shapes(&self, k: u8) -> Vec<u16> {
         if k == P_PROC {
             vec![proc_shape(0, 0, 0, 0), proc_shape(0, 0, 0, 0x1f), proc_shape(1, 1, 0, 0x15), proc_shape(2, 1, 0, 0x0a)]
+        } else if k == P_CACHE_DEFAULT {
+            vec![0]
         } else {
             vec![cache_shape(0xff, 0), cache_shape(0, 0), cache_shape(0xff, 1), cache_shape(0x55, 1), cache_shape(0xaa, 0)]
         }
@@ -269,7 +295,7 @@ pub const R_ISA: u8 = 0;
 pub const R_MMU: u8 = 1;
 pub const R_CMO: u8 = 2;
 pub const R_HART: u8 = 3;
-pub const ISA_STRINGS: [&str; 8] = ["rv64i", "rv64im", "", "r\u{e9}", "rv64imafdc_zicbom_zicboz_sstc", "rv64imafdch_zicbom_zicboz_sstc", "rv", "rv6"];
+pub const ISA_STRINGS: [&str; 8] = ["rv64i", "rv64im", "", "r\u{e9}", "rv64imafdc_zicbom_zicboz_sstc", "rv64imafdch_zicbom_zicboz_sstc", "rv\0", "rv6"];
 pub fn hart_shape(isa_sel: u16, ncmo: u16, cmo_sel: u16) -> u16 {
     isa_sel | (ncmo << 3) | (cmo_sel << 5)
 }
@@ -449,8 +475,8 @@ impl Table for Rhct {
                     if sl == 0 || e.len != want {
                         return Err(format!("ISA node at {}: string length {} needs {} bytes, length says {}", e.off, sl, want, e.len));
                     }
-                    if img[e.off + 8 + sl - 1] != 0 || img[e.off + 8..e.off + 8 + sl - 1].contains(&0) {
-                        return Err(format!("ISA node at {}: string length field {} does not match the NUL position", e.off, sl));
+                    if img[e.off + 8 + sl - 1] != 0 {
+                        return Err(format!("ISA node at {}: string length field {} does not end on the terminating NUL", e.off, sl));
                     }
                 }
                 1 if e.len != 10 => return Err(format!("CMO node at {} has length {}", e.off, e.len)),
@@ -475,6 +501,9 @@ impl Table for Rhct {
             return Err(format!("node count field {} but the body holds {} nodes", n, ents.len()));
         }
         Ok(())
+    }
+    fn summary(&self, img: &[u8], ents: &[Ent]) -> Vec<u64> {
+        ents.iter().filter(|e| e.ty == 0 || e.ty == 0xffff).map(|e| rd16(img, e.off + 6) as u64).collect()
     }
     fn fields(&self, k: u8, _s: u16) -> Vec<FT> {
         use FT::*;
@@ -525,7 +554,7 @@ pub struct Rimt;
 pub const I_IOMMU: u8 = 0;
 pub const I_RC: u8 = 1;
 pub const I_PLAT: u8 = 2;
-pub const PLAT_NAMES: [&str; 4] = ["ACPI0001", "D\u{e9}v\u{fc}", "A", ""];
+pub const PLAT_NAMES: [&str; 4] = ["ACPI0001", "D\u{e9}v\u{fc}", "A\0", ""];
 pub fn iommu_shape(nw: u16, wires_some: bool, base: bool, pci: bool, prox: bool) -> u16 {
     nw | (wires_some as u16) << 2 | (base as u16) << 3 | (pci as u16) << 4 | (prox as u16) << 5
 }
@@ -737,7 +766,7 @@ impl Table for Rimt {
                     }
                     // name is NUL-terminated exactly at the mapping array offset
                     let name = &img[e.off + 12..e.off + ao];
-                    if name[name.len() - 1] != 0 || name[..name.len() - 1].contains(&0) {
+                    if name[name.len() - 1] != 0 {
                         return Err(format!("platform node at {}: mapping offset {} does not follow the name's NUL", e.off, ao));
                     }
                 }
@@ -752,6 +781,18 @@ impl Table for Rimt {
             return Err(format!("device count field {} but the body holds {} devices", n, ents.len()));
         }
         Ok(())
+    }
+    fn summary(&self, img: &[u8], ents: &[Ent]) -> Vec<u64> {
+        let mut v = vec![];
+        for e in ents {
+            match e.ty {
+                0 if e.len >= 32 => v.extend([rd16(img, e.off + 28) as u64, rd16(img, e.off + 30) as u64]),
+                1 if e.len >= 16 => v.extend([rd16(img, e.off + 12) as u64, rd16(img, e.off + 14) as u64]),
+                2 if e.len >= 12 => v.extend([rd16(img, e.off + 8) as u64, rd16(img, e.off + 10) as u64]),
+                _ => {}
+            }
+        }
+        v
     }
     fn fields(&self, k: u8, s: u16) -> Vec<FT> {
         use FT::*;
@@ -821,6 +862,9 @@ fn vbdf(f: &Fill, b: u8) -> u16 {
 impl Table for Viot {
     fn name(&self) -> &'static str {
         "viot"
+    }
+    fn unjudged(&self, _ops: &[Op]) -> Vec<usize> {
+        vec![8] // table Revision: pinned to the baseline, not judged
     }
     fn max_image(&self) -> Option<usize> {
         Some(65_535)
